@@ -538,5 +538,40 @@ def r13_10(ctx):
     return r
 
 
+def r13_11(ctx):
+    """'every SCTP packet ... carries the peer's verification tag, and newly sent DATA chunks carry consecutive TSNs': both
+    are fixed by the handshake (INIT / INIT-ACK set the peer's tag - never 0 - and our initial TSN). transmit() is also
+    woken while the handshake has not even started: the transport exists from DTLS start, and a channel created (or a
+    message sent) in that window queues data and fires timer_notify. Data dequeued then leaves with verification tag 0
+    and a TSN that the handshake overwrites afterwards - the sent queue ends up with two unrelated TSN ranges. Decided:
+    in transmit() new data is taken off the outbound queue only on the edge on which the peer's tag is known
+    (remote_verification_tag != 0) or the association is Connected."""
+    r = RuleResult("R13.11", "K1", "no new DATA is dequeued before the handshake has fixed the peer's tag and our TSN")
+    b = ctx.body(S + "transmit::{closure#0}")
+    r.scope.append(b.name)
+    pops = [bi for bi, t, p in b.calls() if p and p.endswith("::pop_front") and t["a"] and mir.has_field(b.term_operand(t["a"][0]), "outbound_queue")]
+    r.need("dequeues from the outbound queue in transmit", len(pops), 1)
+
+    def peer_known(term, meaning, *_):
+        if term[0] == "bin" and term[1] in ("Ne", "Eq") and isinstance(meaning, bool) and \
+                any(core.is_atomic_load(x, "remote_verification_tag") for x in (term[2], term[3])) and \
+                any(mir.int_value(x) == 0 for x in (term[2], term[3])):
+            return meaning is (term[1] == "Ne")
+        if term[0] == "call" and "PartialEq" in term[1] and isinstance(meaning, bool) and \
+                mir.has(term, lambda x: x[0] == "call" and x[1].endswith("::lock") and x[2] and mir.has_field(x[2][0], "state")) and \
+                mir.has(term, lambda x: x[0] == "agg" and x[2] == "Connected"):
+            return meaning is term[1].endswith("::eq")
+        return False
+    g = core.lift_guards(b, core.guard_edges(b, peer_known))
+    for bi in pops:
+        if g and core.k1(b, [bi], g, fresh_per_iteration=True)[bi] is None:
+            r.ok({"site": b.where(bi), "cut_by": "the peer's verification tag is known / the association is up"})
+        else:
+            r.violate(b.name, "data:before-handshake", b.where(bi),
+                      "new DATA is dequeued and given a TSN whatever the state of the handshake: a message submitted before INIT / INIT-ACK leaves "
+                      "with verification tag 0 and a TSN that the handshake then overwrites")
+    return r
+
+
 def run(ctx):
-    return [r13_1(ctx), r13_2(ctx), r13_3(ctx), r13_4(ctx), r13_5(ctx), r13_6(ctx), r13_7(ctx), r13_8(ctx), r13_9(ctx), r13_10(ctx)]
+    return [r13_1(ctx), r13_2(ctx), r13_3(ctx), r13_4(ctx), r13_5(ctx), r13_6(ctx), r13_7(ctx), r13_8(ctx), r13_9(ctx), r13_10(ctx), r13_11(ctx)]
